@@ -1,5 +1,5 @@
 """C08 — answers do not depend on scan order, thread schedule or process run."""
-import itertools
+import itertools, os
 from .. import core, wsgen
 from .common import Run, split_spec, all_flags, corpus_cases, generic_replay, parse_list
 
@@ -222,7 +222,7 @@ def rescan_part(r, tier):
 
 
 def run(tier, seed):
-    r = Run(PROP, MODULE, THEOREMS, tier, seed)
+    r = Run(PROP, MODULE, THEOREMS, tier, seed, need_server=True)
     if not r.prepare():
         return r.finish(RULE)
     n = 60 if tier == "quick" else 800
@@ -284,7 +284,66 @@ def run(tier, seed):
     r.stats["order_dependent_answers"] = ndiff
     rescan_part(r, tier)
     sched_part(r, tier)
+    threads_part(r, tier)
     return r.finish(RULE)
+
+
+def threads_part(r, tier):
+    """`with any number of worker threads`: the built binary's reports (`fixtures list`, `fixtures unused` as JSON) on
+    fixed trees, with RAYON_NUM_THREADS in {1, 2, 3, 8, 16}, several runs each: byte-identical. The trees are the ones
+    where the scan's parallel phase has something to share: ONE real conftest.py collected under many names (symlinks
+    in ten sibling packages), many files defining the same names, a deep chain of overriding conftest files"""
+    import shutil
+    from .c20 import run_cli
+    v = r.verdict
+    base = "/dev/shm/plsv-c08t-%d" % os.getpid()
+    shutil.rmtree(base, ignore_errors=True)
+    trees = {}
+    # (1) one real file under many names
+    t1 = os.path.join(base, "links", "ws")
+    os.makedirs(os.path.join(t1, "shared"))
+    with open(os.path.join(t1, "shared", "conftest.py"), "w") as f:
+        f.write(FXT.format("shared_fx") + "\n@pytest.fixture\ndef other_fx(shared_fx):\n    return 2\n")
+    for k in range(10):
+        d = os.path.join(t1, "pkg%d" % k)
+        os.makedirs(d)
+        os.symlink(os.path.join("..", "shared", "conftest.py"), os.path.join(d, "conftest.py"))
+        with open(os.path.join(d, "test_p%d.py" % k), "w") as f:
+            f.write("def test_p(shared_fx%s):\n    pass\n" % (", other_fx" if k % 3 == 0 else ""))
+    trees["one conftest.py symlinked into ten packages"] = t1
+    # (2) many files defining the same names + a chain of overrides
+    t2 = os.path.join(base, "same", "ws")
+    d = t2
+    for k in range(8):
+        os.makedirs(d, exist_ok=True)
+        with open(os.path.join(d, "conftest.py"), "w") as f:
+            f.write(FXT.format("foo") if k == 0 else "import pytest\n\n@pytest.fixture\ndef foo(foo):\n    return foo\n")
+        with open(os.path.join(d, "test_l%d.py" % k), "w") as f:
+            f.write(FXT.format("bar") + "\ndef test_l(foo, bar):\n    pass\n")
+        d = os.path.join(d, "l%d" % k)
+    trees["eight nested overriding conftest files, eight same-named local fixtures"] = t2
+    n = 0
+    for desc, root in trees.items():
+        ref = None
+        for threads in ("1", "2", "3", "8", "16", "1", "8", "4", "16", "3", "8", "2", "16"):
+            outs = []
+            for args in (["fixtures", "list", root], ["fixtures", "unused", root, "--format", "json"]):
+                rc, out, err = run_cli(args, {"RAYON_NUM_THREADS": threads})
+                outs.append((rc, out))
+                n += 1
+            if ref is None:
+                ref = (threads, outs)
+            elif outs != ref[1]:
+                which = 0 if outs[0] != ref[1][0] else 1
+                msg = (f"the CLI's {'fixtures list' if which == 0 else 'fixtures unused --format json'} on the tree `{desc}` differs between "
+                       f"RAYON_NUM_THREADS={ref[0]} and RAYON_NUM_THREADS={threads}")
+                v.violation("threads-" + os.path.basename(os.path.dirname(root)), msg,
+                            f"# {msg}\n# tree: {root} (rebuilt by the check)\n# --- with {ref[0]} ---\n"
+                            + "".join("# | %s\n" % l for l in ref[1][which][1].split("\n"))
+                            + f"# --- with {threads} ---\n" + "".join("# | %s\n" % l for l in outs[which][1].split("\n")))
+                break
+    shutil.rmtree(base, ignore_errors=True)
+    r.stats["cli_runs_compared_across_thread_counts"] = n
 
 
 def replay(path):
